@@ -81,6 +81,7 @@ fn main() {
     let _ = std::fs::create_dir_all(&work);
     if let Some(t) = arg(&args, "--threads").and_then(|s| s.parse::<usize>().ok()) {
         let _ = rayon::ThreadPoolBuilder::new().num_threads(t).build_global();
+        util::set_workers(t);
     }
     util::set_tiny(args.iter().any(|a| a == "--tiny"));
     if cmd == "dump-seeds" {
